@@ -132,6 +132,7 @@ P['C10']={
  "note":"memory store only (see level note)"}
 I="internal."
 P['C17']={
+ "quick_timeout_s":75,
  "functions":[I+"LocalConfigFile.Validate",I+"mergeAndValidateOIDCConfigs",I+"applyOIDCDefaults",I+"validateURLs",I+"validateOIDCConfigURLs",I+"validateURL",I+"hasRootPath",I+"isRootPath"],
  "sweep":["internal.init"],
  "panics":True,
